@@ -223,6 +223,10 @@ impl<'a> AnyCache<'a> {
     #[cfg(feature = "hot-reloading")]
     pub(crate) fn reload_untyped(self, id: SharedString, typ: Type) -> Option<Dependencies> {
         let handle = self.get_cached_untyped(&id, typ)?;
+        if !handle.is_dynamic() {
+            // Values added with `get_or_insert` are never reloaded
+            return None;
+        }
 
         let load_asset = || (typ.inner.load)(self, id);
         let load_asset = || {
@@ -413,7 +417,8 @@ pub(crate) trait CacheExt: Cache {
     #[cold]
     fn add_any<T: Storable>(&self, id: &str, asset: T) -> &UntypedHandle {
         let id = SharedString::from(id);
-        let entry = CacheEntry::new(asset, id, || self._has_reloader());
+        // Values added this way are never reloaded, so they do not need a lock
+        let entry = CacheEntry::new(asset, id, || false);
 
         self.insert(entry)
     }
